@@ -1,0 +1,60 @@
+// +build verif
+
+package lorawan
+
+import (
+	"fmt"
+	"sort"
+)
+
+// This file is only compiled with the "verif" build tag. It exposes the
+// MAC payload registry to verification tooling.
+
+// VerifRegistryEntry describes one MAC payload registry entry.
+type VerifRegistryEntry struct {
+	Uplink bool
+	CID    CID
+	Size   int
+	Type   string
+}
+
+// VerifRegistrySnapshot returns a sorted copy of the MAC payload registry.
+func VerifRegistrySnapshot() []VerifRegistryEntry {
+	macPayloadMutex.RLock()
+	defer macPayloadMutex.RUnlock()
+
+	var out []VerifRegistryEntry
+	for _, uplink := range []bool{false, true} {
+		for cid, info := range macPayloadRegistry[uplink] {
+			out = append(out, VerifRegistryEntry{
+				Uplink: uplink,
+				CID:    cid,
+				Size:   info.size,
+				Type:   fmt.Sprintf("%T", info.payload()),
+			})
+		}
+	}
+
+	sort.Slice(out, func(i, j int) bool {
+		if out[i].Uplink != out[j].Uplink {
+			return !out[i].Uplink
+		}
+		return out[i].CID < out[j].CID
+	})
+
+	return out
+}
+
+// VerifRegistryReset removes all proprietary (CID >= 0x80) registrations.
+func VerifRegistryReset() {
+	macPayloadMutex.Lock()
+	defer macPayloadMutex.Unlock()
+
+	for _, uplink := range []bool{false, true} {
+		for cid := range macPayloadRegistry[uplink] {
+			if cid >= 128 {
+				delete(macPayloadRegistry[uplink], cid)
+			}
+		}
+	}
+}
